@@ -63,7 +63,31 @@ def run(prop, tier):
     trace = os.path.join(W, "trace.ndjson")
     summ = os.path.join(W, "summary.json")
     nbytes, mutants = (3000, 3) if tier == "quick" else (200000, 50)
-    lib.zyconf(["fuzz-frontend", allcases, trace, summ, str(nbytes), str(mutants)], timeout=20000)
+    zp = lib.zyconf(["fuzz-frontend", allcases, trace, summ, str(nbytes), str(mutants)], timeout=20000, check=False)
+    if zp.returncode != 0:
+        # the harness died.  A stack overflow in the code under test aborts the process: the workers' marker files hold the
+        # inputs that were in flight; the one(s) that make the real binary die too are the finding
+        text = (zp.stdout or "") + (getattr(zp, "stderr", "") or "")
+        culprits = []
+        lib.build_repo_bins()
+        d = summ + ".inflight"
+        for f in sorted(os.listdir(d)) if os.path.isdir(d) else []:
+            family, _, src = open(os.path.join(d, f), errors="replace").read().partition("\n")
+            path = os.path.join(W, "inflight_%s.zy" % f.split(".")[0])
+            open(path, "w").write(src)
+            _, code, err = cli_one(path)
+            if code not in (0, 1):
+                culprits.append((family, src, code, err))
+        if "overflowed its stack" not in text or not culprits:
+            raise lib.ToolError("zyconf fuzz-frontend failed (%d):\n%s" % (zp.returncode, text[-3000:]))
+        for family, src, code, err in culprits:
+            out.add_findings([{"property": "C10", "kind": "cli-abnormal-exit", "family": family, "input": src[:2000],
+                               "detail": "zydeco check exits with %s: %s [%s]; the in-process pipeline aborted the harness on the same input" %
+                                         (code, "stack overflow" if "overflowed its stack" in err else err[-160:], family)}])
+        out.coverage = {"states": states, "transitions": transitions, "traces_validated_against_impl": 0, "samples": [],
+                        "explanation": "the replay aborted on an input that overflows the stack of the code under test; the run stops at this finding"}
+        out.assumptions = ["TLC 1.8.0"]
+        return out.finish()
     s = json.load(open(summ))
     out.add_findings(s["findings"])
     require(s["classes"].get("success", 0) > 0 and s["classes"].get("diagnostic", 0) > 0, "one outcome class only: %s" % s["classes"])
